@@ -169,12 +169,54 @@ def _is_error_ctor(v) -> bool:
     return isinstance(v, ast.Call) and (text(v.func) in ("Error.from_name", "Error", "cls.from_name"))
 
 
-def _has_nonempty_highlights(call: ast.Call) -> Optional[bool]:
+def _has_nonempty_highlights(call: ast.Call, fn=None) -> Optional[bool]:
     for k in call.keywords:
         if k.arg == "highlights":
-            if isinstance(k.value, (ast.List, ast.Tuple)):
-                return len(k.value.elts) > 0
+            v = k.value
+            if isinstance(v, ast.Name) and fn is not None:
+                from ..fold import local_env
+                v = local_env(fn).get(v.id, v)          # a single-assignment local holding the list
+            if isinstance(v, (ast.List, ast.Tuple)):
+                return len(v.elts) > 0 and not all(isinstance(e, ast.Starred) for e in v.elts)
             return None
+    return False
+
+
+def _implies_positioned(test, truth: bool, var: str) -> bool:
+    """The branch outcome `truth` of `test` is impossible while `var.highlights` is empty."""
+    from ..deadsite import _atoms
+    for e, outcomes in _atoms(test, truth):
+        class Sub(ast.NodeTransformer):
+            hit = False
+
+            def visit_Call(self, node):
+                if isinstance(node.func, ast.Name) and node.func.id in ("len", "bool") and len(node.args) == 1 \
+                        and text(node.args[0]) == f"{var}.highlights":
+                    self.hit = True
+                    return ast.Constant(0 if node.func.id == "len" else False)
+                return self.generic_visit(node)
+
+            def visit_Attribute(self, node):
+                if text(node) == f"{var}.highlights":
+                    self.hit = True
+                    return ast.List(elts=[], ctx=ast.Load())
+                return node
+
+        sub = Sub()
+        e2 = sub.visit(ast.parse(ast.unparse(e), mode="eval").body)
+        if not sub.hit:
+            continue
+        try:
+            v = eval(compile(ast.fix_missing_locations(ast.Expression(e2)), "<guard>", "eval"), {"__builtins__": {}})
+        except Exception:
+            continue
+        v = True if v is True else False if v is False else None if v is None else bool(v)
+        if isinstance(e, ast.Compare) or not isinstance(e, (ast.Attribute, ast.Call)):
+            v = bool(v)
+            if v not in outcomes and (True in outcomes) != v:
+                return True
+        elif bool(v) is False and outcomes == frozenset({True}):
+            return True
     return False
 
 
@@ -196,7 +238,7 @@ def rule_positioned(run, prog):
                 a0 = n.args[0]
                 if _is_error_ctor(a0):
                     n_sites += 1
-                    hl = _has_nonempty_highlights(a0)
+                    hl = _has_nonempty_highlights(a0, fn)
                     run.ob("R-8.3", f"{fn.key}::inline-error", hl is True, "Error created inline and added without a position", n)
                 elif isinstance(a0, (ast.Constant, ast.JoinedStr)):
                     hk = [k for k in n.keywords if k.arg == "highlights"]
@@ -208,7 +250,7 @@ def rule_positioned(run, prog):
             n_sites += 1
             if g is None:
                 g = cfg_of(fn)
-            hl = _has_nonempty_highlights(cnode.value)
+            hl = _has_nonempty_highlights(cnode.value, fn)
             key = f"{fn.key}::error[{var}]"
             if hl is True:
                 run.ob("R-8.3", key, True, "positioned at creation", cnode)
@@ -218,6 +260,8 @@ def rule_positioned(run, prog):
             for n in walk_fn(fn.node):
                 if isinstance(n, ast.Call) and isinstance(n.func, ast.Attribute):
                     if n.func.attr == "add_highlight" and text(n.func.value) == var:
+                        hnodes.add(_cfg_node_of_expr(g, n))
+                    if n.func.attr in ("append", "insert") and text(n.func.value) == f"{var}.highlights":
                         hnodes.add(_cfg_node_of_expr(g, n))
                     if n.func.attr in ("add", "append") and text(n.func.value).endswith("errors") and n.args \
                             and text(n.args[0]) == var:
@@ -237,7 +281,12 @@ def rule_positioned(run, prog):
                 if guarded:
                     continue
                 sure = {h for h in hnodes if not _in_loop_relative(g.nodes[h].ast, cnode)}
-                if g.can_reach(cid, aid, avoid=sure | others, follow_exc=False):
+                # branch outcomes that cannot be taken while the object has no highlight (if error.highlights: ...,
+                # if not error.highlights: return, if len(error.highlights) >= 1: ...) count as positioned
+                cut = {(nd.id, lab) for nd in g.nodes if nd.kind == "test" for lab in ("T", "F")
+                       if _implies_positioned(nd.ast, lab == "T", var)}
+                if g.can_reach(cid, aid, avoid=sure | others, follow_exc=False,
+                               edge_filter=lambda x, y, lab: (x, lab) not in cut):
                     bad.append(a)
             run.ob("R-8.3", key, not bad,
                    f"Error object `{var}` can reach errors.add without any add_highlight on that path: a diagnostic "
@@ -387,9 +436,13 @@ def rule_order(run, prog):
         for n in walk_fn(fn.node):
             if isinstance(n, ast.Call) and _is_error_ctor(n):
                 for k in n.keywords:
-                    if k.arg == "highlights" and isinstance(k.value, (ast.List, ast.Tuple)) and len(k.value.elts) >= 2:
+                    hv = k.value
+                    if k.arg == "highlights" and isinstance(hv, ast.Name):
+                        from ..fold import local_env
+                        hv = local_env(fn).get(hv.id, hv)            # the list held in a single-assignment local
+                    if k.arg == "highlights" and isinstance(hv, (ast.List, ast.Tuple)) and len(hv.elts) >= 2:
                         n_multi += 1
-                        okk, why = _ascending([_hl_args(x) for x in k.value.elts])
+                        okk, why = _ascending([_hl_args(x, fn) for x in hv.elts])
                         run.ob("R-8.4", f"{fn.key}::multi-highlight[{_code_of(n)}]", okk,
                                f"cannot show that the first highlight is the smallest position ({why}): the diagnostic "
                                f"would be sorted by a position other than the one printed", n)
@@ -418,7 +471,7 @@ def rule_order(run, prog):
                 for grp in groups.values():
                     if len(grp) >= 2:
                         n_multi += 1
-                        okk, why = _ascending([_hl_args(c) for c in grp])
+                        okk, why = _ascending([_hl_args(c, fn) for c in grp])
                         run.ob("R-8.4", f"{fn.key}::multi-highlight[{var}]", okk,
                                f"cannot show that the first add_highlight is the smallest position ({why})", grp[0])
             for c in in_loop:
@@ -442,10 +495,33 @@ def _code_of(call) -> str:
     return text(call.args[0], 30).strip("'\"") if call.args else "?"
 
 
-def _hl_args(e):
+def _resolve_locals(e, fn, depth=0):
+    """Copy of expression *e* in which single-assignment locals bound to simple expressions (names, attributes,
+    constants, arithmetic, len(...), subscripts) are replaced by their definition: `end = column + len(value)`."""
+    from ..fold import local_env
+    env = local_env(fn)
+    simple = (ast.Name, ast.Attribute, ast.Constant, ast.BinOp, ast.UnaryOp, ast.Subscript, ast.Tuple, ast.Starred)
+
+    def ok(v):
+        return all(isinstance(x, simple + (ast.operator, ast.unaryop, ast.expr_context, ast.Call, ast.Slice)) for x in ast.walk(v)) and \
+            all(text(c.func) == "len" for c in ast.walk(v) if isinstance(c, ast.Call))
+
+    class Sub(ast.NodeTransformer):
+        def visit_Name(self, node):
+            if isinstance(node.ctx, ast.Load) and node.id in env and ok(env[node.id]) and depth < 4 \
+                    and not any(isinstance(x, ast.Name) and x.id == node.id for x in ast.walk(env[node.id])):
+                return _resolve_locals(env[node.id], fn, depth + 1)
+            return node
+
+    return Sub().visit(ast.parse(ast.unparse(e), mode="eval").body)
+
+
+def _hl_args(e, fn=None):
     """(line expr, column expr) of a Highlight(...) / H(...) / add_highlight(...) call; ('*pos', None) for starred."""
     if not isinstance(e, ast.Call):
         return None
+    if fn is not None:
+        e = _resolve_locals(e, fn)
     args = list(e.args)
     if args and isinstance(args[0], ast.Starred):
         return (args[0], None)
